@@ -1,4 +1,17 @@
 #!/bin/bash
-# confirms every seed, 4 at a time; results in /verif/seeded/<id>/confirm.json
+# confirms every seed that has no confirmation against /repo's current HEAD, ${PAR:-4} at a time;
+# results in /verif/seeded/<id>/confirm.json
 cd /verif
-ls seeded | grep '^C' | xargs -P 4 -n 1 python3 tools/confirm_seed.py > /tmp/confirm_all.out 2>&1
+HEAD=$(git -C /repo rev-parse --short HEAD)
+todo=""
+for d in seeded/C*/; do
+  id=$(basename $d)
+  if [ -f $d/confirm.json ] && grep -q '"confirmed": true' $d/confirm.json; then
+    # STRICT=1: only a confirmation against the current HEAD counts
+    if [ -z "$STRICT" ] || grep -q "\"repo_head\": \"$HEAD\"" $d/confirm.json; then continue; fi
+  fi
+  todo="$todo $id"
+done
+echo "to confirm: $(echo $todo | wc -w)"
+printf '%s\n' $todo | xargs -P ${PAR:-4} -n 1 python3 tools/confirm_seed.py > /tmp/confirm_all.out 2>&1
+grep -l '"confirmed": true' seeded/*/confirm.json | wc -l
